@@ -329,10 +329,18 @@ def gen_surface(rng, fam, ccls, init, bounded):
     if ccls == "off":
         point = point + surf.normal(foot) * rng.choice([-1, 1]) * rng.uniform(0.01, 0.25) * rcurv
     bounds = None
+    wide = bounded and fam == "cylinder" and ccls == "on" and not init and rng.random() < 0.4
+    if wide:
+        # almost the whole wall of the cylinder as parameter box: the distance to a point is not convex over it (but falls
+        # monotonically from the default start (0, 0) towards the point)
+        foot = [rng.uniform(-2.6, 2.6), rng.uniform(-0.9, 0.9)]
+        point = surf.point(foot)
     if bounded:
         bounds = [[min(foot[0], 0.0) - rng.uniform(0.1, 0.4), max(foot[0], 0.0) + rng.uniform(0.1, 0.4)],
                   [min(foot[1], 0.0) - rng.uniform(0.1, 0.4), max(foot[1], 0.0) + rng.uniform(0.1, 0.4)]]
-        if rng.random() < 0.3:  # box that does not contain the default start value (0, 0)
+        if wide:
+            bounds = [[-3.0, 3.0], [-1.0, 1.0]]
+        if rng.random() < 0.3 and not wide:  # box that does not contain the default start value (0, 0)
             bounds = [[foot[0] - rng.uniform(0.1, 0.3), foot[0] + rng.uniform(0.1, 0.3)],
                       [foot[1] - rng.uniform(0.1, 0.3), foot[1] + rng.uniform(0.1, 0.3)]]
         params = [[rng.uniform(*bounds[0]), rng.uniform(*bounds[1])] for _ in range(3)]
